@@ -134,8 +134,10 @@ class Sim:
         drv = self.c if side == "c" else self.s
         m = drv.model
         if side == "c":
-            if m.state == BINDING:
+            if m.state == BINDING and (not m.ip or r.random() < 0.5):
                 a = ("search", "dc=noise", 2, 0, 0, 0, False, None, None, None)
+            elif m.state == BINDING:
+                a = ("bind_sasl", "GSSAPI", "cn=noise", b"again", None)  # a bind while the previous bind request is still unanswered
             elif m.ip and m.state != CLOSED:
                 a = ("bind_simple", "cn=noise", "x", None)
             else:
